@@ -33,7 +33,7 @@ Qed.
 
 Example write_through_mixture :
   rw (wt_run (init true [] [AWrite [200]; AWrite [201]]) [EH; ED KCancel; ES BTimeout; EH]) =
-  mkRW true [] (Some (200, [])) ([200] ++ reason ++ [201]) [].
+  mkRW true [] (Some (200, [])) ([200] ++ reason ++ [201]) [] 499.
 Proof. vm_compute. reflexivity. Qed.
 
 (* (2) the timeout branch flushes what is buffered before writing the reply
@@ -89,7 +89,7 @@ Qed.
 
 Example unguarded_flush_mixture :
   rw (of_run (init true [] [ASet 1 7; AWrite [200]; AFlush]) [EH; EH; ED KCancel; ES BTimeout; EH]) =
-  mkRW true [(1, [7])] (Some (499, [])) (reason ++ [200]) [].
+  mkRW true [(1, [7])] (Some (499, [])) (reason ++ [200]) [] 499.
 Proof. vm_compute. reflexivity. Qed.
 
 (* ... and without any timeout the status the handler set is lost (200 instead of 404),
@@ -135,7 +135,7 @@ Qed.
 
 Example informational_passthrough_mixture :
   rw (if_run (init true [] [ASet 1 7; AWriteHeader 103]) [EH; EH; ED KDeadline; ES BTimeout]) =
-  mkRW true [(1, [7])] (Some (503, [(1, [7])])) reason [(103, [(1, [7])])].
+  mkRW true [(1, [7])] (Some (503, [(1, [7])])) reason [(103, [(1, [7])])] 503.
 Proof. vm_compute. reflexivity. Qed.
 
 (* (5) known finding C04-informational-status, in the model of TODAY's code: a 1xx code
@@ -295,7 +295,7 @@ Qed.
 
 Example cors_headers_mixture :
   rw (cors_run (fun k => k =? 1) (init true [] [ASet 1 7; ASet 2 9; AWrite [200]]) [EH; EH; ED KDeadline; ES BTimeout]) =
-  mkRW true [(1, [7])] (Some (503, [(1, [7])])) reason [].
+  mkRW true [(1, [7])] (Some (503, [(1, [7])])) reason [] 503.
 Proof. vm_compute. reflexivity. Qed.
 
 (* ... and it is the real thing whenever the handler set no such header *)
